@@ -7,7 +7,7 @@
      tree_spec f t g    the same for a tree
      path_ids / path_records / path_geometry / path_feature_geoms   what can be read back from a
                         route output;  tree_entries  the entries of a tree output as a multiset *)
-From Coq Require Import List String Bool Arith Lia Permutation.
+From Coq Require Import List String Ascii Bool Arith Lia Permutation.
 From RC Require Import Base.Res Model.Output.
 Import ListNotations.
 Import OUT.
@@ -103,6 +103,70 @@ Proof.
   { induction m as [|x m IH]; intro acc; cbn; [lia|]. rewrite IH. rewrite (IH x). lia. }
   induction l as [|x l IH]; cbn; [reflexivity|].
   rewrite G, IH, app_length. reflexivity.
+Qed.
+
+
+Lemma Forall_map_iff' {X Y} (P : Y -> Prop) (f : X -> Y) l : Forall (fun x => P (f x)) l -> Forall P (map f l).
+Proof. apply Forall_map. Qed.
+
+(* ---------------------------------------------------------------- reading the identifier file *)
+(* a row of the table: no line feed inside; [keeps_cr]: not ending in a carriage return (such a row
+   cannot be told from a CRLF-terminated one) *)
+Fixpoint no_nl (s : string) : Prop :=
+  match s with EmptyString => True | String c r => c <> nl /\ no_nl r end.
+Definition keeps_cr (s : string) : Prop := strip_cr s = s.
+(* the file with every row terminated by LF *)
+Fixpoint render_lf (rows : list string) : string :=
+  match rows with [] => EmptyString | r :: t => (r ++ String nl (render_lf t))%string end.
+Definition with_cr (r : string) : string := (r ++ String cr EmptyString)%string.
+
+Lemma segments_line r s : no_nl r -> segments (r ++ String nl s) = r :: segments s.
+Proof.
+  induction r as [|c r IH]; intro H; cbn.
+  - reflexivity.
+  - destruct H as [Hc Hr]. rewrite (proj2 (Ascii.eqb_neq c nl) Hc). rewrite (IH Hr). reflexivity.
+Qed.
+
+Lemma segments_render rows : Forall no_nl rows -> segments (render_lf rows) = (rows ++ [EmptyString])%list.
+Proof.
+  intro H. induction H as [|r t Hr _ IH]; cbn [render_lf]; [reflexivity|].
+  rewrite (segments_line r _ Hr), IH. reflexivity.
+Qed.
+
+Lemma read_lines_render rows : Forall no_nl rows -> read_lines (render_lf rows) = map strip_cr rows.
+Proof.
+  intro H. unfold read_lines. rewrite (segments_render rows H).
+  rewrite removelast_last, last_last. rewrite app_nil_r. reflexivity.
+Qed.
+
+Lemma strip_with_cr r : strip_cr (with_cr r) = r.
+Proof.
+  unfold with_cr. induction r as [|c r IH]; [reflexivity|].
+  cbn [append]. change (strip_cr (String c (r ++ String cr EmptyString)) = String c r).
+  destruct r as [|d r']; [reflexivity|].
+  cbn [append strip_cr] in *. rewrite IH. reflexivity.
+Qed.
+
+Lemma no_nl_with_cr r : no_nl r -> no_nl (with_cr r).
+Proof.
+  unfold with_cr. induction r as [|c r IH]; cbn; intro H.
+  - split; [discriminate | exact I].
+  - destruct H as [Hc Hr]. split; [exact Hc | exact (IH Hr)].
+Qed.
+
+(* row i of the file is entry i of the table - blank, whitespace-only and duplicate rows included -
+   with LF line ends (rows not ending in CR) and with CRLF line ends *)
+Lemma uuid_rows_never_shift rows : Forall no_nl rows ->
+    (Forall keeps_cr rows -> uuid_from_file (render_lf rows) = Ok rows)
+    /\ uuid_from_file (render_lf (map with_cr rows)) = Ok rows.
+Proof.
+  intro H. unfold uuid_from_file. split.
+  - intro Hk. rewrite (read_lines_render rows H). f_equal.
+    induction Hk as [|r t Hr _ IH]; cbn; [reflexivity|].
+    inversion H; subst. rewrite Hr, IH by assumption. reflexivity.
+  - rewrite read_lines_render.
+    + f_equal. rewrite map_map. rewrite <- (map_id rows) at 2. apply map_ext. exact strip_with_cr.
+    + apply Forall_map_iff'. eapply Forall_impl; [|exact H]. exact no_nl_with_cr.
 Qed.
 
 (* ---------------------------------------------------------------- the output model *)
